@@ -115,6 +115,19 @@ package crlstore
 
 // Delete removes the store's own directory and nothing else: the temporary store of a failed refresh shares
 // BasePath and Identifier with the live store, only LevelDBPath tells them apart.
+// Whole-store replacement on disk, proved against the refined disk model under the stated hypotheses about the two
+// stores at the time of the call (both handles are consistent with their directories, the live store sits at
+// BasePath/Identifier, the two directories differ). CreateStore establishes the hypotheses; they are not carried
+// through the repository functions (DESIGN 8.4).
+// The factory establishes the hypotheses of replaced_on_disk for the stores it hands out.
+//@ func LevelDbStoreFactory.CreateStore
+//@   props C08 C11 C12 C18 C20
+//@   ensures[C08,C11,C12,C18,C20] handed_out_store_is_consistent_with_its_directory: err == nil ==> typeis(ret, *LevelDbStore) && fsConsistent(as(ret, *LevelDbStore)) && (!temporary ==> as(ret, *LevelDbStore).LevelDBPath == pathJoin2(F.BasePath, identifier)) && (temporary ==> tempName(baseName(as(ret, *LevelDbStore).LevelDBPath)))
+
+//@ func LevelDbStore.Update
+//@   props C08 C11 C18
+//@   ensures[C08,C11,C18] replaced_on_disk: old(typeis(store, *LevelDbStore) && fsConsistent(S) && fsConsistent(as(store, *LevelDbStore)) && S.LevelDBPath == pathJoin2(S.BasePath, S.Identifier) && as(store, *LevelDbStore).LevelDBPath != S.LevelDBPath && as(store, *LevelDbStore).Db != S.Db) && err == nil ==> (forall k string :: $ldbhas[S.Db][k] == old(storeHas(store, k))) && fsConsistent(S)
+
 //@ func LevelDbStore.Delete
 //@   props C08 C12 C20
 //@   ensures[C08,C12,C20] deletes_its_own_directory: called(LevelDbStore.removeWithRetries#1) && arg(LevelDbStore.removeWithRetries#1, 1) == old(S.LevelDBPath)
@@ -227,35 +240,67 @@ package crlstore
 
 // ---- LevelDbStore internals
 
+// ---- refined disk model (see specs/std.spec: $fs_dskexists, $fs_dskhas, $fs_dskpath)
+//@ spec func fsConsistent(l ref) bool = l != nil && l.Db != nil && $fs_dskexists[l.LevelDBPath] && $fs_dskpath[l.Db] == l.LevelDBPath
+//@ spec func otherDirsKept2(a string, b string) bool = forall q string :: q != a && q != b ==> $fs_dskhas[q] == old($fs_dskhas[q]) && $fs_dskexists[q] == old($fs_dskexists[q])
+
 //@ func LevelDbStore.closeDbWithRetries
 //@   props C08 C12 C20
 //@   requires S != nil && S.Logger != nil && db != nil
 //@   assigns X.fs, X.retry
+//@   ensures[C08,C11,C18] closed_handle_is_on_disk: err == nil ==> $fs_dskhas[$fs_dskpath[db]] == $ldbhas[db]
+//@   ensures (forall q string :: q != $fs_dskpath[db] ==> $fs_dskhas[q] == old($fs_dskhas[q])) && $fs_dskexists == old($fs_dskexists) && $fs_dskpath == old($fs_dskpath)
 //@ func LevelDbStore.removeWithRetries
 //@   props C08 C12 C20
 //@   requires S != nil && S.Logger != nil
 //@   assigns X.fs, X.retry
+//@   ensures[C08,C12,C20] removes_nothing_else: (forall q string :: q != dirToRemove ==> $fs_dskhas[q] == old($fs_dskhas[q]) && $fs_dskexists[q] == old($fs_dskexists[q])) && $fs_dskpath == old($fs_dskpath)
 //@ func LevelDbStore.renameWithRetries
 //@   props C08 C12 C20
 //@   requires S != nil && S.Logger != nil
 //@   assigns X.fs, X.retry
+//@   ensures[C08,C11,C18] moved: err == nil ==> !old($fs_dskexists[newPath]) && old($fs_dskexists[oldPath]) && $fs_dskhas[newPath] == old($fs_dskhas[oldPath]) && $fs_dskexists[newPath] && !$fs_dskexists[oldPath] && otherDirsKept2(newPath, oldPath)
+//@   ensures[C08] failed_move_changes_nothing: err != nil ==> $fs_dskhas == old($fs_dskhas) && $fs_dskexists == old($fs_dskexists)
+//@   ensures $fs_dskpath == old($fs_dskpath)
 //@ func LevelDbStore.renameWithRetriesToTempDir
 //@   props C08 C12 C20
 //@   requires S != nil && S.Logger != nil
 //@   assigns X.fs, X.retry
+//@   ensures[C08,C11,C12,C18] moved_aside: err == nil ==> !old($fs_dskexists[newPath]) && old($fs_dskexists[oldPath]) && $fs_dskhas[newPath] == old($fs_dskhas[oldPath]) && $fs_dskexists[newPath] && !$fs_dskexists[oldPath] && otherDirsKept2(newPath, oldPath) && tempName(baseName(newPath))
+//@   ensures[C08] failed_move_changes_nothing: err != nil ==> $fs_dskhas == old($fs_dskhas) && $fs_dskexists == old($fs_dskexists)
+//@   ensures $fs_dskpath == old($fs_dskpath)
 //@ func createRandomFileName
 //@   props C12 C20
 //@   pure
 //@   ensures[C12,C20] temp_directories_carry_the_temp_name: err == nil ==> tempName(baseName(ret))
 //@ func createTempDirWithRetries
-//@   props C20
+//@   props C20 C12
 //@   requires logger != nil
 //@   assigns X.fs, X.retry
+//@   ensures[C12,C20] temp_directory_is_new_and_carries_the_temp_name: err == nil ==> tempName(baseName(ret)) && !old($fs_dskexists[ret]) && $fs_dskexists[ret]
+//@   ensures (forall q string :: q != ret ==> $fs_dskhas[q] == old($fs_dskhas[q]) && $fs_dskexists[q] == old($fs_dskexists[q])) && $fs_dskpath == old($fs_dskpath)
 //@ func openDbWithRetries
-//@   props C12 C20
+//@   props C12 C20 C08 C11 C18
 //@   requires logger != nil
 //@   assigns X.fs, X.ldbhas, X.retry
+//@   fresh r0
 //@   ensures err == nil ==> ret != nil
+//@   ensures[C08,C11,C18] opened_handle_shows_the_directory: err == nil ==> $fs_dskpath[ret] == levelDBPath && $ldbhas[ret] == old($fs_dskhas[levelDBPath]) && $fs_dskexists[levelDBPath]
+//@   ensures (forall d int :: d != ret ==> $ldbhas[d] == old($ldbhas[d]) && $fs_dskpath[d] == old($fs_dskpath[d])) && $fs_dskhas == old($fs_dskhas) && (forall q string :: q != levelDBPath ==> $fs_dskexists[q] == old($fs_dskexists[q]))
+// What is read back is exactly what encoding/asn1 decoded: the deserialisers add no normalisation of their own
+// (C18: stored values read back unchanged; an absent optional field stays absent).
+//@ func ASN1Serializer.DeserializeMetaInfoExt
+//@   props C18
+//@   ensures[C18] decoded_value_is_returned_unchanged: err == nil ==> called(Unmarshal#1) && ret == payload(arg(Unmarshal#1, 1)) && *ret == after(Unmarshal#1, *ret)
+//@ func ASN1Serializer.DeserializeMetaInfo
+//@   props C18
+//@   ensures[C18] decoded_value_is_returned_unchanged: err == nil ==> called(Unmarshal#1) && ret == payload(arg(Unmarshal#1, 1)) && *ret == after(Unmarshal#1, *ret)
+//@ func ASN1Serializer.DeserializeRevokedCert
+//@   props C18
+//@   ensures[C18] decoded_value_is_returned_unchanged: err == nil ==> called(Unmarshal#1) && ret == payload(arg(Unmarshal#1, 1)) && *ret == after(Unmarshal#1, *ret)
+//@ func ASN1Serializer.DeserializeCRLLocations
+//@   props C18
+//@   ensures[C18] decoded_value_is_returned_unchanged: err == nil ==> called(Unmarshal#1) && ret == payload(arg(Unmarshal#1, 1)) && *ret == after(Unmarshal#1, *ret)
 //@ func ASN1Serializer.SerializeSignatureCert
 //@   props C18
 //@   requires cert != nil
